@@ -109,6 +109,7 @@ def check_C01(ctx):
     ctx.sample(read_line(shards[0], 1))
     ctx.sample(read_line(shards[-1], 1))
     reproduce_steps(ctx, "C01", rej)
+    check_insitu(ctx, "C01")
 
 
 def prove_fold_lemma(ctx):
@@ -154,6 +155,7 @@ def check_C11(ctx):
     ctx.sample(read_line(shards[0], 1))
     reproduce_steps(ctx, "C11", rej)
     reproduce_steps(ctx, "C01", rej_sem, cap=10)
+    check_insitu(ctx, "C11")
 
 
 def replay_step(ctx, payload):
@@ -166,6 +168,98 @@ def replay_step(ctx, payload):
     ctx.cov["evaluations"] = 1
     if r["rejects"]:
         ctx.violation(payload["signature"], payload["what"], dict(kind="step", mode=payload["mode"], event=read_line(os.path.join(d, "re.000.ndjson"), 1)))
+
+
+
+# ------------------------------------------------------------------ in-situ step traces (hook verif_trace.go in RunCycle)
+def insitu_lines(ctx, which, d):
+    """Record every task executed by (a) the repository's own test suite or (b) harness battles through the guarded hook
+    in RunCycle (-tags verif, VERIF_STEP_TRACE), and re-encode the lines for StepTrace.tla."""
+    raw = os.path.join(d, which + ".raw")
+    if os.path.exists(raw):
+        os.remove(raw)
+    if which == "suite":
+        e = dict(os.environ, GOFLAGS="-mod=mod", GOPROXY="off", GOSUMDB="off", GOTOOLCHAIN="local", VERIF_STEP_TRACE=raw)
+        p = subprocess.run(["go", "test", "-tags", "verif", "-vet=off", "-count=1", "."], cwd=REPO, env=e, capture_output=True, text=True, timeout=1200)
+        ctx.notes["repository_suite_with_hooks"] = "passed" if p.returncode == 0 else "exit %d: %s" % (p.returncode, (p.stdout + p.stderr)[-300:])
+    else:
+        ctx.run_harness(["battles", "-out", os.path.join(d, "unused"), "-seed", ctx.seed, "-shards", 1, "-n", 150 if ctx.quick else 1500, "-twin=false"], env=dict(VERIF_STEP_TRACE=raw))
+    if not os.path.exists(raw):
+        raise ToolError("the step-trace hook wrote nothing for %s (is verif_trace.go built in?)" % which)
+    st = ctx.harness_json(["suite-convert", "-in", raw, "-out", os.path.join(d, which), "-shards", 8])
+    os.remove(raw)
+    return shard_files(os.path.join(d, which)), st
+
+
+def insitu_sig(e):
+    pc = e["pc"]
+    t = None
+    if e.get("sparse") == 1:
+        t = next((c[1] for c in e["pre"] if c[0] == pc), [0, 0, 0, 0, 0, 0])
+    elif 0 <= pc < len(e["pre"]):
+        t = e["pre"][pc]
+    n = lambda tab, k: tab[k] if 0 <= k < len(tab) else "?"
+    return "in-situ step %s.%s %s %s M=%d%s" % (n(INS_OP, t[0]), n(INS_MOD, t[1]), n(INS_AM, t[2]), n(INS_AM, t[4]), e["M"],
+                                               " with other tasks queued" if e.get("qpre") else "") if t else "in-situ step pc outside core"
+
+
+def insitu_confirm(ctx, which, mode, e, tag):
+    """The rejected line must be produced again when the recording is repeated, and be rejected when validated alone."""
+    d = ctx.sub("insitu_re_%s_%s" % (which, tag))
+    shards, _ = insitu_lines(ctx, which, d)
+    key = json.dumps(e, sort_keys=True)
+    found = False
+    for sh in shards:
+        with open(sh) as f:
+            for l in f:
+                if json.dumps(json.loads(l), sort_keys=True) == key:
+                    found = True
+                    break
+        if found:
+            break
+    if not found:
+        return None
+    one = os.path.join(d, "one.ndjson")
+    open(one, "w").write(json.dumps(e) + "\n")
+    r = ctx.tlc("StepTrace", env=dict(VERIF_TRACE=one, VERIF_MODE=mode, VERIF_EXPLAIN="1"))
+    if not r["rejects"]:
+        return None
+    expect = [p for p in r["prints"] if p[0] == "EXPECT"]
+    return expect[0][1] if expect else "(rejected)"
+
+
+def check_insitu(ctx, mode):
+    """C01/C11 on steps recorded inside RunCycle: the repository's test suite and harness battles (queues with several tasks)."""
+    total = 0
+    for which in ("suite", "battles"):
+        d = ctx.sub("insitu_" + which)
+        shards, st = insitu_lines(ctx, which, d)
+        ctx.notes["insitu_" + which] = st
+        total += st["steps"]
+        if which == "suite" and st["steps"] < 200:
+            raise ToolError("the repository's suite produced only %d hooked steps" % st["steps"])
+        rej = ctx.validate_shards("StepTrace", shards, mode=mode, heap="4g")
+        by_sig = {}
+        for sh, i in rej:
+            e = read_line(sh, i)
+            by_sig.setdefault(insitu_sig(e), e)
+        for n, (sig, e) in enumerate(list(by_sig.items())[:8]):
+            exp = insitu_confirm(ctx, which, mode, e, str(n))
+            if exp is None:
+                raise ToolError("rejected in-situ step (%s) was not reproduced when the recording was repeated" % sig)
+            small = dict(e, pre="(%d cells)" % len(e["pre"])) if len(e["pre"]) > 64 else e
+            ctx.violation(sig, "step recorded inside RunCycle (%s): pc=%d qpre=%s observed queue %s diff %s; the specification expects %s" % (
+                which, e["pc"], e.get("qpre"), e["q"], e["d"], exp), dict(kind="insitu", which=which, mode=mode, event=e, shown=small))
+    ctx.cov["traces_validated_against_impl"] = ctx.cov.get("traces_validated_against_impl", 0) + total
+    ctx.cov["evaluations"] = ctx.cov.get("evaluations", 0) + total
+
+
+def replay_insitu(ctx, payload):
+    exp = insitu_confirm(ctx, payload["which"], payload["mode"], payload["event"], "replay")
+    ctx.cov["traces_validated_against_impl"] = 1
+    ctx.cov["evaluations"] = 1
+    if exp is not None:
+        ctx.violation(payload["signature"], payload["what"], dict(kind="insitu", which=payload["which"], mode=payload["mode"], event=payload["event"]))
 
 
 # ------------------------------------------------------------------ battles (C02, C04, C12, C15)
